@@ -2,7 +2,7 @@
    (vm.inspectObject / primitiveToObject / createHash / createArrayFromSlice).
    Go's reflect itself is modelled, not verified.  Definitions only. *)
 From Coq Require Import Floats.
-From EF Require Import Model.Base Model.Value.
+From EF Require Import Model.Base Gen.Tables Model.Value.
 Open Scope N_scope.
 
 (* Kinds of Go values a host may hand to Run.  `bits` = 0 for int/uint. *)
@@ -47,8 +47,10 @@ Fixpoint filter_map {A B} (f : A -> option B) (l : list A) : list B :=
 Section WithStdlib.
 Variable o : stdlib.
 
-(* primitiveToObject on a field / map value.  None = oracle miss. *)
-Fixpoint to_object (fuel : nat) (h : hostval) : option conv :=
+(* primitiveToObject on a field / map value.  None = oracle miss (fuel).  `depth` counts the maps we are
+   inside: maps nested deeper than the machine's nesting limit are not followed (a Go map can contain
+   itself) and read as null. *)
+Fixpoint to_object (fuel : nat) (depth : N) (h : hostval) : option conv :=
   match fuel with
   | O => None
   | S f =>
@@ -62,11 +64,12 @@ Fixpoint to_object (fuel : nat) (h : hostval) : option conv :=
   | HTime u => Some (CVal (VInt u))
   | HSlice l => Some (CVal (VArray (filter_map slice_elem l)))
   | HMapIface l =>
+      if max_call_depth <=? depth then Some (CVal VNull) else
       (fix go (l : list (str * hostval)) (acc : list (value * value)) : option conv :=
          match l with
          | [] => Some (CVal (VHash acc))
          | (k, x) :: l' =>
-             match to_object f x with
+             match to_object f (depth + 1) x with
              | Some (CVal v) =>
                  match hash_put o acc (2, k) (VStr k) v with
                  | Some acc' => go l' acc'
@@ -77,12 +80,13 @@ Fixpoint to_object (fuel : nat) (h : hostval) : option conv :=
              end
          end) l []
   | HMapOther _ l =>
+      if max_call_depth <=? depth then Some (CVal VNull) else
       (* keys are converted like any value; a key that is not hashable is skipped *)
       (fix go (l : list (hostval * hostval)) (acc : list (value * value)) : option conv :=
          match l with
          | [] => Some (CVal (VHash acc))
          | (k, x) :: l' =>
-             match to_object f k, to_object f x with
+             match to_object f (depth + 1) k, to_object f (depth + 1) x with
              | Some (CVal kv), Some (CVal v) =>
                  match hash_key o kv with
                  | None => None
@@ -110,7 +114,7 @@ Definition host_fields (h : hostval) : option (option (list (str * value))) :=
        match l with
        | [] => Some (Some (rev acc))
        | (k, x) :: l' =>
-           match to_object 64 x with
+           match to_object (N.to_nat max_call_depth + 8) 0 x with
            | Some (CVal v) => go l' ((k, v) :: acc)
            | Some CPanic => Some None
            | None => None
